@@ -316,6 +316,7 @@ func ruleC06(w *World, r *Report) {
 	ruleC06Trigger(w, r)
 	ruleC06Release(w, r)
 	ruleC06SeidEntropy(w, r)
+	ruleC06SessionEnds(w, r)
 	// R06.8 "conserved": the address a session was given goes back to the pool when the session ends, whatever
 	// modifications preceded (shared with C05 R05.7, R05.10, R05.11)
 	r.withRule("R06.8", func() {
@@ -1048,4 +1049,31 @@ func interpretRegion(f *ssa.Function, start, prev *ssa.BasicBlock, atomV func(ss
 		prev, b = b, next
 	}
 	return nil, false
+}
+
+// ruleC06SessionEnds (R06.9): wherever a session record is removed (every caller of RemoveSession), the
+// session's UE address goes back to the pool on every path through that site (C05 R05.2, seen from the
+// pool: "conserved").
+func ruleC06SessionEnds(w *World, r *Report) {
+	const P = "C06"
+	cg := w.CG()
+	remove := w.Fn(P, "pfcpiface.(*PFCPConn).RemoveSession")
+	dealloc := w.Fn(P, "pfcpiface.(*IPPool).DeallocIP")
+	reaches := func(i ssa.Instruction) bool {
+		c, ok := i.(ssa.CallInstruction)
+		if !ok {
+			return false
+		}
+		if _, isGo := i.(*ssa.Go); isGo {
+			return false
+		}
+		return cg.siteReaches(c, func(f *ssa.Function) bool { return f == dealloc })
+	}
+	n := 0
+	for _, e := range cg.callersOf(remove) {
+		n++
+		fn := w.FuncName(e.Caller)
+		r.check(onEveryPathThrough(e.Caller, e.Site, reaches, noPoolEdge), "R06.9", fn, "a session that ends gives its UE address back", w.Pos(e.Site.Pos()), "IPPool.DeallocIP on every path through the site", "a session record is removed here without giving the session's UE address back to the pool: the address stays allocated to a session that no longer exists")
+	}
+	r.floor("R06.9 session-end sites", n, 4)
 }
